@@ -119,4 +119,64 @@ def prodFilters : List (ZF α) → Except PyErr (ZF α)
 def rProd (fs : List (ZF α)) : ZF α := fs.foldl rMul (rScalar 1)
 def rSum (fs : List (ZF α)) : ZF α := fs.foldl rAdd (rScalar 0)
 
+/-! ### expression trees -/
+
+/-- expression trees over filters: literals, numbers, `+ − * /`, unary minus / plus, integer powers,
+multiplication / division by a number, and substitution into a literal filter -/
+inductive Expr (α : Type) where
+  | lit (f : ZF α)
+  | scalar (c : α)
+  | neg (e : Expr α)
+  | pos (e : Expr α)
+  | add (a b : Expr α)
+  | sub (a b : Expr α)
+  | mul (a b : Expr α)
+  | div (a b : Expr α)
+  | pow (e : Expr α) (n : Int)
+  | muls (e : Expr α) (c : α)
+  | divs (e : Expr α) (c : α)
+  | subst (f : ZF α) (e : Expr α)
+
+/-- evaluation with the operators as coded -/
+def Expr.run : Expr α → Except PyErr (ZF α)
+  | .lit f => .ok f
+  | .scalar c => ofScalar c
+  | .neg e => do let x ← e.run; C05.neg x
+  | .pos e => do let x ← e.run; C05.pos x
+  | .add a b => do let x ← a.run; let y ← b.run; C05.add x y
+  | .sub a b => do let x ← a.run; let y ← b.run; C05.sub x y
+  | .mul a b => do let x ← a.run; let y ← b.run; C05.mul x y
+  | .div a b => do let x ← a.run; let y ← b.run; truediv x y
+  | .pow e n => do let x ← e.run; C05.pow x n
+  | .muls e c => do let x ← e.run; mulScalar x c
+  | .divs e c => do let x ← e.run; divScalar x c
+  | .subst f e => do let y ← e.run; C05.subst f y
+
+/-- the rational function the tree denotes, in the textbook field of fractions; `none` where a
+division by the zero function occurs -/
+def Expr.value : Expr α → Option (ZF α)
+  | .lit f => if canon f.den = [] then none else some (rOf f)
+  | .scalar c => some (rScalar c)
+  | .neg e => e.value.map rNeg
+  | .pos e => e.value
+  | .add a b => do let x ← a.value; let y ← b.value; pure (rAdd x y)
+  | .sub a b => do let x ← a.value; let y ← b.value; pure (rSub x y)
+  | .mul a b => do let x ← a.value; let y ← b.value; pure (rMul x y)
+  | .div a b => do let x ← a.value; let y ← b.value; rDiv x y
+  | .pow e n => do let x ← e.value; rPow x n
+  | .muls e c => do let x ← e.value; pure (rMul x (rScalar c))
+  | .divs e c => do let x ← e.value; rDiv x (rScalar c)
+  | .subst f e => do
+      if canon f.den = [] then none
+      let y ← e.value
+      rSubst (rOf f) y
+
+/-- every literal of the tree is a valid filter object -/
+def Expr.Lits (P : ZF α → Prop) : Expr α → Prop
+  | .lit f => P f
+  | .scalar _ => True
+  | .neg e | .pos e | .pow e _ | .muls e _ | .divs e _ => e.Lits P
+  | .add a b | .sub a b | .mul a b | .div a b => a.Lits P ∧ b.Lits P
+  | .subst f e => P f ∧ e.Lits P
+
 end ALV.C05
